@@ -114,7 +114,7 @@ def _scalable_dataset():
 
     ds = IODataset()
     t = np.linspace(0.0, 1.0, 9)
-    x = np.column_stack([t, t[::-1]])
+    x = np.column_stack([t, (3.0 * t) % 1.0])
     ds.add_variable("x", x[:, :1], group_name=ds.INPUT_GROUP)
     ds.add_variable("z", x[:, 1:], group_name=ds.INPUT_GROUP)
     ds.add_variable("y", (x[:, :1] ** 2 + x[:, 1:]), group_name=ds.OUTPUT_GROUP)
@@ -288,10 +288,38 @@ def _explicit() -> dict[str, tuple[str, Callable[[Path], Any]]]:
         def build(tmp):
             from gemseo.mda.factory import MDAFactory
 
-            ds = _sellar() if coupled == "sellar" else _affine_coupled()
+            if coupled == "sellar":
+                ds = _sellar()
+            elif coupled == "sellar-strong":
+                ds = _sellar()[:2]
+            else:
+                ds = _affine_coupled()
             return MDAFactory().create(cls_name, ds, **kw)
 
         return build
+
+    def mda_sequential(tmp):
+        from gemseo.mda.gauss_seidel import MDAGaussSeidel
+        from gemseo.mda.jacobi import MDAJacobi
+        from gemseo.mda.sequential_mda import MDASequential
+
+        ds = _sellar()[:2]
+        return MDASequential(ds, [MDAJacobi(ds, max_mda_iter=2), MDAGaussSeidel(ds)])
+
+    def density_filter(tmp):
+        from gemseo.problems.topology_optimization.density_filter_disc import DensityFilter
+
+        return DensityFilter(n_x=5, n_y=4)
+
+    def fea(tmp):
+        from gemseo.problems.topology_optimization.fea_disc import FiniteElementAnalysis
+
+        return FiniteElementAnalysis(n_x=5, n_y=4, f_node=12, fixed_nodes=[0, 1, 2, 3, 4], fixed_dir=[0, 1, 0, 1, 0])
+
+    def volume_fraction(tmp):
+        from gemseo.problems.topology_optimization.volume_fraction_disc import VolumeFraction
+
+        return VolumeFraction(n_x=5, n_y=4)
 
     rec: dict[str, tuple[str, Callable[[Path], Any]]] = {
         "AnalyticDiscipline": ("AnalyticDiscipline", analytic),
@@ -320,8 +348,15 @@ def _explicit() -> dict[str, tuple[str, Callable[[Path], Any]]]:
         "SurrogateDiscipline": ("SurrogateDiscipline", surrogate),
         "TaylorDiscipline": ("TaylorDiscipline", taylor),
     }
-    for name in ("MDAJacobi", "MDAGaussSeidel", "MDANewtonRaphson", "MDAQuasiNewton", "MDAChain", "MDASequential", "MDAGSNewton"):
+    for name in ("MDAJacobi", "MDAGaussSeidel", "MDAQuasiNewton", "MDAChain"):
         rec[name] = (name, mda(name))
+    rec["MDANewtonRaphson"] = ("MDANewtonRaphson", mda("MDANewtonRaphson", "sellar-strong"))
+    rec["MDAGSNewton"] = ("MDAGSNewton", mda("MDAGSNewton", "sellar-strong"))
+    rec["MDASequential"] = ("MDASequential", mda_sequential)
+    rec["MDANewtonRaphson[affine]"] = ("MDANewtonRaphson", mda("MDANewtonRaphson", "affine"))
+    rec["DensityFilter"] = ("DensityFilter", density_filter)
+    rec["FiniteElementAnalysis"] = ("FiniteElementAnalysis", fea)
+    rec["VolumeFraction"] = ("VolumeFraction", volume_fraction)
     rec["MDAJacobi[affine]"] = ("MDAJacobi", mda("MDAJacobi", "affine"))
     rec["MDAGaussSeidel[affine]"] = ("MDAGaussSeidel", mda("MDAGaussSeidel", "affine"))
     rec["MDAChain[affine]"] = ("MDAChain", mda("MDAChain", "affine"))
